@@ -201,6 +201,16 @@ def _one(item):
                     return ("bad", f"the same device with another {dim} could not be compiled: " + short_exc(e)[:100])
                 if m2.instances["x"].of.params == insts[0].of.params:
                     return ("bad", f"given {dim}={spec[1][dim]}u does not reach the device: {dim}={other[dim]}u compiles to the very same device call {str(insts[0].of.params)[:80]}")
+    # a diode is sized by area and perimeter: w x l and l x w are the same diode
+    if spec[0] == "Diode" and "w" in spec[1] and "l" in spec[1]:
+        try:
+            other = dict(spec[1], w=spec[1]["l"], l=spec[1]["w"])
+            t2, m2 = hierarchy(h, (spec[0], other))
+            mod.compile(t2)
+        except Exception as e:
+            return ("bad", "the same diode with w and l swapped could not be compiled: " + short_exc(e)[:100])
+        if m2.instances["x"].of.params != insts[0].of.params:
+            return ("bad", f"diode w={spec[1]['w']}u l={spec[1]['l']}u compiles to {str(insts[0].of.params)[:70]}, but with w and l swapped to {str(m2.instances['x'].of.params)[:70]}")
     # ... and so must a given multiplier
     if spec[0] in ("Cap2", "Cap3", "Bipolar") and "mult" in spec[1]:
         try:
@@ -371,6 +381,7 @@ def attempt(label, fn):
     try:
         fn(m)
         out[label] = "compiled" if mapped(m) else "untouched"
+        out["device:" + label] = getattr(getattr(m.instances["x"].of, "module", None), "name", None)
     except Exception as e:
         out[label] = "raised " + type(e).__name__ + ": " + str(e)[:60].replace("\n", " ")
 import hdl21.pdk.sample_pdk as sample
@@ -468,7 +479,7 @@ def run(ctx):
     r1 = registry_scenario("one")
     ctx.count(states=len(r1), transitions=len(r1), traces_validated_against_impl=len(r1))
     for k, w in want_one.items():
-        if r1.get(k) != w:
+        if r1.get(k) != w or (w == "compiled" and r1.get("device:" + k) != "nmos"):
             ctx.violation(dict(model="", pdk="registry", prim="-", select="one:" + k, what=str(r1.get(k))[:40], exc=""), dict(registry="one", results=r1), f"hdl21.pdk.compile {k}: {r1.get(k)}")
     if not str(r1.get("bad_name", "")).startswith("raised") or any(b in r1.get("bad_name", "") for b in BAD_EXC) or "no_such_pdk" not in r1.get("bad_name", ""):  # descriptive: says which name it could not find
         ctx.violation(dict(model="", pdk="registry", prim="-", select="one:bad_name", what=str(r1.get("bad_name"))[:40], exc=""), dict(registry="one", results=r1), "unknown PDK name not rejected descriptively")
@@ -479,8 +490,9 @@ def run(ctx):
     orders = [list(o) for o in (_it.permutations(ways, 2) if ctx.quick else _it.permutations(ways))]
     for order, ro in zip(orders, ctx.pmap(registry_scenario, orders, chunk=1)):
         ctx.count(states=1, transitions=len(order), traces_validated_against_impl=1)
-        badk = [k for k in sorted(ro) if ro[k] != "compiled"]
-        if badk or len(ro) != len(order):
+        badk = [k for k in sorted(ro) if not k.startswith("device:") and ro[k] != "compiled"]
+        badk += [k for k in sorted(ro) if k.startswith("device:") and ro[k] != "nmos"]
+        if badk or len([k for k in ro if not k.startswith("device:")]) != len(order):
             ctx.violation(dict(model="", pdk="registry", prim="-", select="order:" + (badk[0] if badk else "?"), what=str(ro.get(badk[0]) if badk else ro)[:40], exc=""),
                           dict(registry=order, results=ro), f"with one PDK registered, hdl21.pdk.compile calls in the order {order} gave {ro}")
     ctx.fam("registry_orders", orders=len(orders))
@@ -491,6 +503,11 @@ def run(ctx):
     for k in ("by_name", "by_module", "by_package", "default_after_set_default"):
         if r2.get(k) != "compiled":
             ctx.violation(dict(model="", pdk="registry", prim="-", select="several:" + k, what=str(r2.get(k))[:40], exc=""), dict(registry="several", results=r2), f"hdl21.pdk.compile {k}: {r2.get(k)}")
+    # ... and each call reached the PDK it named (golden device names of the CORE nmos)
+    for k, want in (("by_name", "sky130_fd_pr__nfet_01v8"), ("by_module", "nfet_03v3"), ("by_package", "sky130_fd_pr__nfet_01v8"), ("default_after_set_default", "nmos")):
+        if r2.get("device:" + k) != want:
+            ctx.violation(dict(model="", pdk="registry", prim="-", select="several:device:" + k, what=str(r2.get("device:" + k))[:40], exc=""), dict(registry="several", results=r2),
+                          f"with several PDKs registered, hdl21.pdk.compile {k} produced device {r2.get('device:' + k)!r}, the PDK asked for documents {want!r}")
     r3 = registry_scenario("grow")
     ctx.count(states=len(r3), transitions=len(r3), traces_validated_against_impl=len(r3))
     if r3.get("default_with_one") != "compiled" or not str(r3.get("default_after_second_registered", "")).startswith("raised RuntimeError"):
